@@ -54,6 +54,7 @@ structure File where
   name : String
   raw : String            -- the raw bytes (hex), what `hashFile` feeds to sha256
   plain : Option String   -- the text after the optional gunzip; `none` = broken gzip stream
+  dangling : Bool := false -- a symlink whose target is missing: `os.Stat` fails on it
   deriving Repr, DecidableEq
 
 /-- what one sha256 state was fed: (path, raw) per file, in order -/
@@ -101,6 +102,7 @@ structure St where
 inductive Err where
   | missing       -- hashing the config file failed (it does not exist)
   | gzip          -- broken gzip stream
+  | stat          -- os.Stat fails on a directory entry (dangling symlink)
   | env (name : String)
   deriving Repr, DecidableEq
 
@@ -115,6 +117,8 @@ def lookupEnv (env : List (String × String)) (n : String) : Option String :=
 /-- `normalize`: gunzip if needed, expand, write tmp + rename (the write is atomic in the model) -/
 def normalize (c : Conf) (env : List (String × String)) (f : File) (key : Key) (o : OutFS) :
     Except Err OutFS :=
+  -- for a directory entry `os.Stat` comes first: nothing of the entry is hashed or written
+  if f.dangling then .error .stat else
   match f.plain with
   | none => .error .gzip
   | some p =>
@@ -197,6 +201,18 @@ def dirsStep (c : Conf) (track : Bool) (st : St) (s : Snap) (o0 : OutFS) : Pass 
   let ch0 := st.lastDirs.isEmpty && !s.dirs.isEmpty
   passDirs c track s.env st.lastDirs 0 s.dirs lastFiles o0 [] ch0
 
+/-- is an entry below the watched directories unreadable for `os.Stat` -/
+def watchedBroken (s : Snap) : Bool :=
+  match s.watched with
+  | some fs => fs.any (·.dangling)
+  | none => false
+
+/-- hashing the watched directories (after the config directories): `filepath.Walk` fails on an
+    entry `os.Stat` cannot read, and `apply` returns that error — the outputs and the tracked lists of
+    the pass stay, nothing is compared or remembered -/
+def watchStep (s : Snap) (p : Pass) : Pass :=
+  if p.err.isNone && watchedBroken s then { p with err := some .stat } else p
+
 /-- the last part of `apply`: the decision to reload and the retry loop -/
 def finish (c : Conf) (st : St) (s : Snap) (p : Pass) : St × Res :=
   let st1 := { st with out := p.out, lastDirFiles := p.files }
@@ -218,6 +234,6 @@ def finish (c : Conf) (st : St) (s : Snap) (p : Pass) : St × Res :=
 def apply (c : Conf) (track : Bool) (st : St) (s : Snap) : St × Res :=
   match cfgStep c st s with
   | .error e => (st, .err e)
-  | .ok o0 => finish c st s (dirsStep c track st s o0)
+  | .ok o0 => finish c st s (watchStep s (dirsStep c track st s o0))
 
 end Thanos.Reloader
